@@ -5,6 +5,7 @@ import (
 	"go/ast"
 	"go/token"
 	"go/types"
+	"os"
 	"sort"
 	"strings"
 
@@ -128,6 +129,9 @@ func (x *Exec) mapLoops(fr *Frame) {
 				if _, isDbg := ins.(*ssa.DebugRef); isDbg {
 					continue
 				}
+				if _, isPhi := ins.(*ssa.Phi); isPhi {
+					continue // a phi carries the position of the variable's declaration
+				}
 				if !p.IsValid() {
 					continue
 				}
@@ -239,6 +243,14 @@ func (x *Exec) runFunc(fr *Frame, entry *State) (*State, Val) {
 			st = x.mergeStates(ins)
 		}
 		// phis
+		var inOwn []*Term
+		{
+			var rs []*Term
+			for _, s := range ins {
+				rs = append(rs, s.reach)
+			}
+			inOwn = x.ownConds(rs)
+		}
 		phiVal := func(phi *ssa.Phi) Val {
 			var res *Val
 			for k := len(inPreds) - 1; k >= 0; k-- {
@@ -255,7 +267,7 @@ func (x *Exec) runFunc(fr *Frame, entry *State) (*State, Val) {
 					res = &vv
 				} else {
 					for j := range res.L {
-						res.L[j] = tb.Ite(ins[k].reach, v.L[j], res.L[j])
+						res.L[j] = tb.Ite(inOwn[k], v.L[j], res.L[j])
 					}
 					res.Ptr, res.Clo = nil, nil
 				}
@@ -304,8 +316,19 @@ func (x *Exec) runFunc(fr *Frame, entry *State) (*State, Val) {
 				fr.vals[p] = v
 			}
 			if lu != nil && !st.dead {
-				cl, d := x.evalInv(fr, st, li, lu, nil)
-				for _, c := range cl {
+				cur := map[*ssa.Phi]Val{}
+				for _, p := range phis {
+					cur[p] = fr.vals[p]
+				}
+				cl, d := x.evalInv(fr, st, li, lu, cur)
+				for k, c := range cl {
+					if os.Getenv("GOVC_DEBUG_INV") != "" {
+						s := x.tb.Show(c)
+						if len(s) > 400 {
+							s = s[:400]
+						}
+						fmt.Fprintf(os.Stderr, "assume inv loop%d.%d: %s\n", li.ordinal, k, s)
+					}
 					x.assume(st, c)
 				}
 				li.d0 = d
@@ -319,7 +342,21 @@ func (x *Exec) runFunc(fr *Frame, entry *State) (*State, Val) {
 		}
 		// instructions
 		terminated := false
-		for _, insn := range b.Instrs {
+		var amap *assertMap
+		if fr.unit != nil && !fr.spec && len(fr.unit.Asserts) > 0 {
+			amap = x.assertPoints(fr)
+		}
+		for k, insn := range b.Instrs {
+			if amap != nil {
+				for _, au := range amap.before[insn] {
+					x.checkAssert(fr, st, au, b, k)
+				}
+			}
+			if amap != nil && k > 0 {
+				for _, au := range amap.after[b.Instrs[k-1]] {
+					x.checkAssert(fr, st, au, b, k)
+				}
+			}
 			switch t := insn.(type) {
 			case *ssa.Phi:
 				continue
@@ -405,9 +442,14 @@ func (x *Exec) runFunc(fr *Frame, entry *State) (*State, Val) {
 		return x.mergeStates(nil), x.freshVal(resT, "noret")
 	}
 	res := Val{T: resT, L: append([]*Term{}, live[len(live)-1].res.L...)}
+	var lrs []*Term
+	for _, e := range live {
+		lrs = append(lrs, e.st.reach)
+	}
+	lown := x.ownConds(lrs)
 	for k := len(live) - 2; k >= 0; k-- {
 		for j := range res.L {
-			res.L[j] = tb.Ite(live[k].st.reach, live[k].res.L[j], res.L[j])
+			res.L[j] = tb.Ite(lown[k], live[k].res.L[j], res.L[j])
 		}
 	}
 	return x.mergeStates(sts), res
@@ -460,11 +502,28 @@ func allocRoot(v ssa.Value) *ssa.Alloc {
 	}
 }
 
+type rowTarget struct {
+	et  types.Type
+	arr *Term
+}
+
+// definedOutside: v is a parameter, constant, or an instruction outside the loop.
+func definedOutside(v ssa.Value, li *loopInfo) bool {
+	switch t := v.(type) {
+	case *ssa.Parameter, *ssa.Const, *ssa.Global, *ssa.FreeVar:
+		return true
+	case ssa.Instruction:
+		return !li.blocks[t.Block()]
+	}
+	return false
+}
+
 func (x *Exec) havocLoop(fr *Frame, st *State, li *loopInfo) {
 	tb := x.tb
 	eff := &Effects{Classes: map[string]bool{}}
 	allocs := false
 	cells := map[*ssa.Alloc]bool{}
+	var rows []rowTarget
 	var bl []*ssa.BasicBlock
 	for b := range li.blocks {
 		bl = append(bl, b)
@@ -477,6 +536,31 @@ func (x *Exec) havocLoop(fr *Frame, st *State, li *loopInfo) {
 					if _, isArr := a.Type().(*types.Pointer).Elem().Underlying().(*types.Array); !isArr {
 						cells[a] = true
 						continue
+					}
+				}
+				// store into an element of a slice/array that is loop-invariant: only that
+				// array's row of the element heap changes
+				if ia, ok := s.Addr.(*ssa.IndexAddr); ok && definedOutside(ia.X, li) {
+					base := x.val(fr, ia.X)
+					var arr *Term
+					var et types.Type
+					switch bt := base.T.Underlying().(type) {
+					case *types.Slice:
+						arr, et = base.L[0], bt.Elem()
+					case *types.Pointer:
+						if at, ok := bt.Elem().Underlying().(*types.Array); ok {
+							if id, ok := x.arrayID(&Frame{spec: true, fn: fr.fn, lpkg: fr.lpkg, id: fr.id}, st, base, nil); ok {
+								arr, et = id, at.Elem()
+							}
+						}
+					}
+					if arr != nil {
+						if _, isS := isStruct(et); !isS {
+							if _, isA := et.Underlying().(*types.Array); !isA {
+								rows = append(rows, rowTarget{et, arr})
+								continue
+							}
+						}
 					}
 				}
 			}
@@ -498,6 +582,16 @@ func (x *Exec) havocLoop(fr *Frame, st *State, li *loopInfo) {
 		}
 	}
 	x.applyEff(st, eff)
+	for _, rt := range rows {
+		for _, l := range x.leaves(rt.et) {
+			cls := elemClass(rt.et) + l.Path
+			if eff.Top || eff.Classes[elemClass(rt.et)] {
+				continue // whole class already forgotten
+			}
+			h := x.heapGet(st, cls, x.locArraySort(2, l.Sort))
+			x.heapSet(st, cls, tb.Store(h, rt.arr, tb.Fresh("row", tb.Array(tb.BV(64), l.Sort))))
+		}
+	}
 	if allocs {
 		bv64 := tb.BV(64)
 		old := x.heapGet(st, "g:alloc", tb.Array(bv64, tb.Bool))
@@ -581,32 +675,8 @@ func (x *Exec) resolveLocal(fr *Frame, st *State, li *loopInfo, lr LocalRef, ove
 	if len(cands) > 0 {
 		return x.evalPure(fr, st, cands[0], h, over, 0)
 	}
-	// deepest dominating definition
-	var best ssa.Value
-	for _, d := range refs {
-		if ins, ok := d.X.(ssa.Instruction); ok {
-			if ins.Block().Dominates(h) && ins.Block() != h {
-				if best == nil {
-					best = d.X
-				} else if bi, ok := best.(ssa.Instruction); ok && bi.Block().Dominates(ins.Block()) {
-					best = d.X
-				}
-			}
-		} else if best == nil {
-			best = d.X
-		}
-	}
-	if best != nil {
-		return x.val(fr, best)
-	}
-	// parameter never referenced
-	for _, p := range fr.fn.Params {
-		if p.Object() != nil && p.Object().Pos() == lr.Pos {
-			return x.val(fr, p)
-		}
-	}
-	x.fatal("%s: cannot resolve variable %q at loop %d (contract drift?)", fr.fn.Name(), lr.Name, li.ordinal)
-	return Val{}
+	// nearest reference or phi on the way up the dominator tree from the loop entry
+	return x.resolveAt(fr, st, lr, h, 0)
 }
 
 func (x *Exec) evalInv(fr *Frame, st *State, li *loopInfo, lu *LoopUnit, over map[*ssa.Phi]Val) ([]*Term, *Term) {
@@ -697,13 +767,42 @@ func (x *Exec) autoInv(fr *Frame, st *State, li *loopInfo, phis []*ssa.Phi, entr
 		} else {
 			c = tb.ULe(init, cur)
 		}
-		x.autoCands = append(x.autoCands, &autoCand{fr: fr, li: li, phi: p, init: init, signed: signed})
-		// The candidate is only assumed if its preservation is provable from the loop guard alone:
-		// cur >= init && next = cur + k && no wrap (next > cur) => next >= init.  The no-wrap side
-		// condition is generated as an obligation `auto` at the back edge (see below) — to stay sound
-		// without a dependency between obligations, the assumption is guarded by that side condition's
-		// validity being itself an obligation of this unit.
+		cand := &autoCand{fr: fr, li: li, phi: p, init: init, signed: signed}
+		x.autoCands = append(x.autoCands, cand)
+		// The candidates are assumed at the loop head; the obligations that make the assumption
+		// legitimate (value on every back edge satisfies the candidate again) are generated at the
+		// back edges (autoBackEdge) and are ordinary obligations of this unit.
 		x.assume(st, c)
+		// range-index pattern: phi = index-1, guard `phi+1 < L` with L fixed: also phi < L
+		if signed {
+			for _, ins := range p.Block().Instrs {
+				add, ok := ins.(*ssa.BinOp)
+				if !ok || add.Op != token.ADD || add.X != p {
+					continue
+				}
+				for _, ins2 := range p.Block().Instrs {
+					cmp, ok := ins2.(*ssa.BinOp)
+					if !ok || cmp.Op != token.LSS || cmp.X != add || !definedOutside(cmp.Y, li) {
+						continue
+					}
+					L := x.val(fr, cmp.Y).L[0]
+					if L.Sort != cur.Sort {
+						continue
+					}
+					cand.upper = L
+					x.assume(st, tb.Implies(tb.SLt(init, L), tb.SLt(cur, L)))
+				}
+			}
+		}
+	}
+	// references held in loop variables are allocated objects (or nil)
+	for _, p := range phis {
+		v := fr.vals[p]
+		for k, l := range x.leaves(p.Type()) {
+			if l.Kind == LRef && l.Path != "#val" && k < len(v.L) {
+				x.assumeAllocated(st, v.L[k])
+			}
+		}
 	}
 }
 
@@ -713,6 +812,7 @@ type autoCand struct {
 	phi    *ssa.Phi
 	init   *Term
 	signed bool
+	upper  *Term
 }
 
 // autoObligations emits, for every assumed automatic invariant, the obligation that makes the
@@ -734,6 +834,130 @@ func (x *Exec) autoBackEdge(fr *Frame, st *State, li *loopInfo, over map[*ssa.Ph
 			g = tb.ULe(c.init, nv.L[0])
 		}
 		x.addObl(fr, st, "inv-pres", nil, fmt.Sprintf("loop%d.auto:%s>=init", li.ordinal, c.phi.Comment), g)
+		if c.upper != nil {
+			x.addObl(fr, st, "inv-pres", nil, fmt.Sprintf("loop%d.auto:%s<bound", li.ordinal, c.phi.Comment), tb.Implies(tb.SLt(c.init, c.upper), tb.SLt(nv.L[0], c.upper)))
+		}
+	}
+}
+
+// ---------- point assertions
+
+type assertMap struct {
+	before map[ssa.Instruction][]*AssertUnit
+	after  map[ssa.Instruction][]*AssertUnit
+}
+
+func (x *Exec) assertPoints(fr *Frame) *assertMap {
+	if x.amap != nil {
+		return x.amap
+	}
+	am := &assertMap{before: map[ssa.Instruction][]*AssertUnit{}, after: map[ssa.Instruction][]*AssertUnit{}}
+	x.amap = am
+	fi := x.info(fr.fn)
+	for _, au := range fr.unit.Asserts {
+		lo, hi := au.Stmt.Pos(), au.Stmt.End()
+		var first, last ssa.Instruction
+		for _, b := range fi.rpo {
+			for _, ins := range b.Instrs {
+				p := ins.Pos()
+				if !p.IsValid() || p < lo || p >= hi {
+					continue
+				}
+				if _, isPhi := ins.(*ssa.Phi); isPhi {
+					continue
+				}
+				if first == nil {
+					first = ins
+				}
+				if first != nil && ins.Block() == first.Block() {
+					last = ins
+				}
+			}
+		}
+		if first == nil {
+			x.fatal("%s: no instruction for the statement anchoring assertion %q", fr.fn.Name(), au.C.Anchor)
+		}
+		if au.C.When == "before" {
+			am.before[first] = append(am.before[first], au)
+		} else {
+			am.after[last] = append(am.after[last], au)
+		}
+	}
+	return am
+}
+
+// resolveAt finds the value of a source variable at the program point (b, idx): the nearest
+// reference (DebugRef) or phi of that variable walking up the dominator tree.
+func (x *Exec) resolveAt(fr *Frame, st *State, lr LocalRef, b *ssa.BasicBlock, idx int) Val {
+	for blk := b; blk != nil; blk = blk.Idom() {
+		hi := len(blk.Instrs) - 1
+		if blk == b {
+			hi = idx - 1
+		}
+		for k := hi; k >= 0; k-- {
+			switch t := blk.Instrs[k].(type) {
+			case *ssa.DebugRef:
+				if t.Object() != nil && t.Object().Pos() == lr.Pos {
+					if t.IsAddr {
+						sf := &Frame{spec: true, fn: fr.fn, lpkg: fr.lpkg, id: fr.id}
+						return x.load(sf, st, x.val(fr, t.X), nil)
+					}
+					return x.val(fr, t.X)
+				}
+			case *ssa.Phi:
+				if t.Comment == lr.Name && types.Identical(t.Type(), lr.Type) {
+					return x.val(fr, t)
+				}
+			}
+		}
+	}
+	for _, p := range fr.fn.Params {
+		if p.Object() != nil && p.Object().Pos() == lr.Pos {
+			return x.val(fr, p)
+		}
+	}
+	x.fatal("%s: cannot resolve variable %q at assertion point (contract drift?)", fr.fn.Name(), lr.Name)
+	return Val{}
+}
+
+func (x *Exec) checkAssert(fr *Frame, st *State, au *AssertUnit, b *ssa.BasicBlock, idx int) {
+	if au.Fn == nil {
+		return
+	}
+	var args []Val
+	nrecv := 0
+	if fr.fn.Signature.Recv() != nil {
+		nrecv = 1
+	}
+	for _, sp := range au.Params {
+		switch sp.Kind {
+		case "recv":
+			args = append(args, fr.args[0])
+		case "param":
+			args = append(args, fr.args[nrecv+sp.Index])
+		case "old":
+			args = append(args, fr.oldVals[sp.Index])
+		case "local":
+			args = append(args, x.resolveAt(fr, st, sp.Local, b, idx))
+		}
+	}
+	res, facts := x.runSpecF(au.Fn, st, x.entry, args)
+	sub := st.clone()
+	x.assume(sub, facts)
+	lbl := fmt.Sprintf("%s %q.%d", au.C.When, au.C.Anchor, au.Index)
+	if au.C.Clause.Label != "" {
+		lbl = au.C.Clause.Label
+	}
+	save := x.curProps
+	if len(au.C.Clause.Props) > 0 {
+		x.curProps = au.C.Clause.Props
+	}
+	x.addObl(fr, sub, "assert", nil, lbl, res.L[0])
+	x.curProps = save
+	// an assertion that has been checked may be used afterwards (quantified ones are not carried
+	// along: they are end results, and would only burden later queries)
+	if !res.L[0].hasBnd {
+		x.assume(st, x.tb.Implies(facts, res.L[0]))
 	}
 }
 
